@@ -33,6 +33,7 @@ fn main() {
         std::fs::OpenOptions::new().create(true).append(true).open(&args[2]).expect("outcomes"),
     ));
     let skip: usize = args.get(3).map(|s| s.parse().unwrap()).unwrap_or(0);
+    let budget_ms: u64 = std::env::var("VERIF_PARSE_BUDGET_MS").ok().and_then(|s| s.parse().ok()).unwrap_or(5000);
     let t0 = Instant::now();
     {
         let out = out.clone();
@@ -77,7 +78,7 @@ fn main() {
             }
         }
         CUR.store(rid, Ordering::SeqCst);
-        DEADLINE.store(t0.elapsed().as_millis() as u64 + 5000, Ordering::SeqCst);
+        DEADLINE.store(t0.elapsed().as_millis() as u64 + budget_ms, Ordering::SeqCst);
         let trace = rq["trace"].as_bool().unwrap_or(false);
         let r = std::panic::catch_unwind(move || {
             rt::reset();
